@@ -1419,6 +1419,22 @@ class NoPanic:
             if u <= 2 ** 32:
                 return self.rec(fn, b, "str-repeat", coarse(P, args[1]), "proved", "count <= %s" % u)
             return self.rec(fn, b, "str-repeat", coarse(P, args[1]), "open", "repeat count unbounded")
+        if (t["fn"].get("trait") == "byteorder::ByteOrder" or "as byteorder::ByteOrder>" in sp or "byteorder::ByteOrder::" in sp) and args:
+            # LittleEndian::read_u64(buf) / write_u32(buf, n): plain slice accessors that panic when the slice is shorter than the integer
+            import re as _re
+            m_ = _re.match(r"(read|write)_([ui])(\d+)(_into)?$", name)
+            if m_:
+                need = int(m_.group(3)) // 8
+                if B.le(("int", need), ("len", args[0]), 0, b):
+                    return self.rec(fn, b, "byteorder-slice", coarse(P, args[0]), "proved", "the slice holds at least %d bytes" % need)
+                return self.rec(fn, b, "byteorder-slice", coarse(P, args[0]), "open", "byteorder::ByteOrder::%s panics on a slice shorter than %d bytes" % (name, need))
+        if name in ("chunks", "chunks_exact", "chunks_mut", "chunks_exact_mut", "rchunks", "rchunks_exact", "windows", "step_by") and len(args) == 2 and \
+                (sp.startswith("core::slice") or sp.startswith("core::iter")):
+            if B.lower(args[1], b) >= 1:
+                return self.rec(fn, b, "chunk-size", coarse(P, args[1]), "proved", "size >= 1")
+            return self.rec(fn, b, "chunk-size", coarse(P, args[1]), "open", "%s panics when its size argument is 0" % name)
+        if name in ("split_off", "copy_within", "rotate_left", "rotate_right", "swap_remove") and len(args) >= 2 and (sp.startswith("core::slice") or sp.startswith("alloc::vec")):
+            return self.rec(fn, b, name, ",".join(describe(P, a) for a in args[1:]), "open", "%s has a panicking precondition" % name)
         if name in ("copy_from_slice", "clone_from_slice") and len(args) == 2:
             ld, ls = ("len", args[0]), ("len", args[1])
             if B.le(ld, ls, 0, b) and B.le(ls, ld, 0, b):
